@@ -652,3 +652,65 @@ Proof.
   f_equal. f_equal. f_equal. unfold data_at, pyidx. cbn [Z.ltb Z.compare].
   f_equal. lia.
 Qed.
+
+
+(* ---------- the tie rule: `>=` lets the LATER candidate, i.e. the SMALLER start, win ---------- *)
+Lemma wfold_strict (cand : nat -> Q) cs cur i v :
+  fold_left (wstep Qle_bool cand) cs cur = Some (i, v) ->
+  (cur = Some (i, v) /\ forall a, In a cs -> (v < cand a)%Q) \/
+  (exists cs1 cs2, cs = cs1 ++ i :: cs2 /\ v = cand i /\ forall a, In a cs2 -> (v < cand a)%Q).
+Proof.
+  revert cur. induction cs as [|a cs IH]; intros cur H; simpl in H.
+  - left. split; [exact H|intros a []].
+  - destruct (IH _ H) as [(Hc & Hall)|(cs1 & cs2 & Hcs & Hv & Hall)].
+    + unfold wstep in Hc. destruct cur as [[i0 v0]|].
+      * destruct (Qle_bool (cand a) v0) eqn:E.
+        -- inversion Hc; subst. right. exists [], cs. repeat split; auto.
+        -- left. split; [exact Hc|]. inversion Hc; subst. intros a' [<-|Hin]; [|apply Hall; exact Hin].
+           destruct (Qlt_le_dec v (cand a)) as [Hlt|Hle]; [exact Hlt|].
+           apply Qle_bool_iff in Hle. congruence.
+      * inversion Hc; subst. right. exists [], cs. repeat split; auto.
+    + right. exists (a :: cs1), cs2. subst cs. repeat split; auto.
+Qed.
+
+Lemma seq_split : forall A a m x B, seq a m = A ++ x :: B -> A = seq a (x - a) /\ a <= x.
+Proof.
+  induction A as [|y A IH]; intros a m x B H.
+  - destruct m as [|m]; [discriminate|]. cbn [seq app] in H. inversion H; subst.
+    rewrite Nat.sub_diag. split; [reflexivity|lia].
+  - destruct m as [|m]; [discriminate|]. cbn [seq app] in H. inversion H as [[Hy Hrest]]. subst y.
+    destruct (IH _ _ _ _ Hrest) as (HA & Hle).
+    split; [|lia]. replace (x - a) with (S (x - S a)) by lia. cbn [seq]. rewrite <- HA. reflexivity.
+Qed.
+
+Lemma Wsel_smallest data j l i v :
+  Wsel 0%Q Qle_bool Qplus (cinc data) j l = Some (i, v) ->
+  forall i', 1 <= i' < i -> (v < Wcand 0%Q Qle_bool Qplus (cinc data) j l i')%Q.
+Proof.
+  intros H i' Hi'. unfold Wsel, wsel in H.
+  apply wfold_strict in H as [(Hc & _)|(cs1 & cs2 & Hcs & Hv & Hall)]; [discriminate|].
+  apply Hall. apply (f_equal (@rev nat)) in Hcs. rewrite rev_involutive, rev_app_distr in Hcs.
+  cbn [rev] in Hcs. rewrite <- app_assoc in Hcs. cbn [app] in Hcs.
+  apply seq_split in Hcs as (HA & _). apply in_rev. rewrite HA. apply in_seq. lia.
+Qed.
+
+Theorem jenks_imp_tie_rule data k l j :
+  1 <= k -> 2 <= l <= length data -> 2 <= j <= k ->
+  let M := jenks_matrices data k in
+  forall i, fst M l j = Z.of_nat (S i) ->
+  forall i', 1 <= i' < i ->
+    exists p p', snd M i (j - 1) = Fin p /\ snd M i' (j - 1) = Fin p' /\
+                 (cinc data i l + p < cinc data i' l + p')%Q.
+Proof.
+  intros Hk Hl Hj M i HLi i' Hi'.
+  destruct (L_cell data k Hk l j ltac:(lia) ltac:(lia)) as (i0 & Hs & Hi0 & HL).
+  fold M in HL. rewrite HLi in HL. assert (i0 = i) by lia. subst i0.
+  assert (Hprev : forall x, 1 <= x < l -> snd M x (j - 1) = Fin (QW data (j - 2) x)).
+  { intros x Hx. destruct (Nat.eq_dec x 1) as [->|Hx1].
+    - destruct (jenks_imp_untouched data k 1 (j - 1) Hk ltac:(lia)) as (_ & H). unfold M. rewrite H.
+      unfold QW. rewrite W_small by lia. reflexivity.
+    - destruct (jenks_imp_var_combinations data k x (j - 1)) as (H & _); try lia.
+      unfold M. rewrite H. replace (j - 1 - 1) with (j - 2) by lia. reflexivity. }
+  exists (QW data (j - 2) i), (QW data (j - 2) i'). split; [apply Hprev; lia|]. split; [apply Hprev; lia|].
+  exact (Wsel_smallest data (j - 2) l i _ Hs i' Hi').
+Qed.
